@@ -30,6 +30,10 @@ def make_gen(g):
         return MaxStepGenerator(base_step=1.0, step_ratio=1.64, num_steps=12)
     if g == 4:
         return MinStepGenerator(base_step=2.0 ** -13, step_ratio=2.0, num_steps=2)
+    if g == 5:
+        return MaxStepGenerator(base_step=1.0, step_ratio=1.3, num_steps=12)
+    if g == 6:
+        return MinStepGenerator(base_step=2.0 ** -8, step_ratio=1.3, num_steps=10)
     return None
 
 
